@@ -237,6 +237,8 @@ def mk_fn(f, variant=None):
         g = lambda e: e.code if isinstance(e, VerifError) else -1
     elif n == 'errconst':
         g = lambda e: c
+    elif n == 'errnone':
+        g = lambda e: None
     else:
         raise C.MachineryError('unknown function %r' % (f,))
     if variant is None or variant == 'int':
@@ -866,7 +868,7 @@ def run_multi(pipes, schedule, taps='all'):
 
 
 def run_src(pipe, items, complete=True, timescale=None, taps='all', root='store', dl_late=False,
-            source='subject'):
+            source='subject', sibling=False):
     """A plain source through with_memory_store (root key (0,)).  source: 'subject' (hot: the
     items are pushed after the subscription), 'sync' (a cold source that delivers everything
     from inside its subscribe function), 'immediate' (rx.from_ on the ImmediateScheduler)."""
@@ -908,8 +910,26 @@ def run_src(pipe, items, complete=True, timescale=None, taps='all', root='store'
     with C.quiet_stdout():
         if not dl_late:
             _subscribe_routers(rec, ctx)
+        if sibling and source == 'subject' and root == 'store':
+            # Another with_memory_store pipeline of the same process is alive at the same time
+            # (the same feed fanned out to a second aggregation): first another one subscribed
+            # before, then one subscribed after the pipeline that is judged.  Each call of
+            # with_memory_store is a store section of its own.
+            def _sib():
+                return src.pipe(rs.state.with_memory_store(pipeline=rx.pipe(
+                    rs.ops.group_by(lambda x: repr(x)[-1:], pipeline=rx.pipe(rs.ops.count(reduce=True))),
+                    rs.data.to_list())))
+            try:
+                _sib().subscribe(on_next=lambda i: None, on_error=lambda e: None)
+            except Exception:
+                pass
         try:
             obs.subscribe(on_next=on_next, on_error=on_error, on_completed=on_completed)
+            if sibling and source == 'subject' and root == 'store':
+                try:
+                    _sib().subscribe(on_next=lambda i: None, on_error=lambda e: None)
+                except Exception:
+                    pass
         except Exception as e:      # a synchronous source delivers inside subscribe()
             if source == 'subject':
                 raise
